@@ -20,7 +20,7 @@ CONSTANTS Devices,      \* e.g. {"a","b"}
           MaxEdits,     \* offline edits per device
           Times,        \* clock values an edit can carry, e.g. 1..2
           Names,        \* names for byte-identical rename events
-          EditKinds,    \* subset of {"new","upd","del","ren"}
+          EditKinds,    \* subset of {"new","upd","del","ren","desc"}
           ScanLimit,    \* page size of the ancestor scan
           K,            \* syncs per device after editing stops
           Mode,         \* "sequential" | "concurrent"
@@ -134,12 +134,13 @@ LastTime(d) == log[d][Len(log[d])].t
 (* a local edit appends one event stamped with the device clock             *)
 Edit(d, kind, n, t) ==
   /\ ~quiesced /\ Idle(d) /\ edits[d] < MaxEdits /\ kind \in EditKinds
-  /\ kind \in {"new", "upd", "del", "ren"}
+  /\ kind \in {"new", "upd", "del", "ren", "desc"}
   /\ LET k == edits[d] + 1
          x == CASE kind = "new" -> Term("new", d, ToString(k))
                 [] kind = "upd" -> Term("upd", d, ToString(k))
                 [] kind = "del" -> Term("del", "-", "0")
                 [] kind = "ren" -> Term("ren", "-", n)
+                [] kind = "desc" -> Term("desc", d, ToString(k))   \* folder description (encrypted meta: unique)
      IN /\ (kind \in {"upd", "del"} => HasS0(Evs(log[d])))
         /\ (kind # "ren" => n = CHOOSE m \in Names : TRUE)
         /\ log' = [log EXCEPT ![d] = Append(@, Rec(x, t))]
